@@ -34,7 +34,11 @@ def main() -> int:
                     rows[(row["key"], row["op"], row["clause"])] = row
     assigned = {entry["id"]: {} for entry in entries}
     unexplained = []
+    from harness import persist  # pylint: disable=import-outside-toplevel
     for row in rows.values():
+        # literals of the abstract input are recomputed (the vocabulary may have grown since the run); literals of the
+        # region (C12) are taken from the run
+        row["features"] = sorted(set(row["features"]) | set(persist.features(row["input"]["uni"], row["input"]["hist"])))
         failure = {"op": row["op"], "clause": row["clause"], "input": row["input"]}
         assert case_key(failure) == row["key"]
         sampled = row["input"].get("seed", 0) != 0   # enumerated cases use the fixed sequence seed 0
